@@ -151,6 +151,18 @@ CLAIMS["C08"] = dict(
     technique="static analysis: field-coverage rule over NodeData + effect analysis on the source parameter + sibling agreement",
     design="DESIGN.md section 5, C08")
 
+CLAIMS["C19"] = dict(
+    text="Structural conditions of the documented replay convention: the bit cast is guarded by isinstance(int) and membership in "
+         "{0,1} and its result alphabet is {'0','1'} for both admitted classes int and bool (finite type lattice; str(bool) is the "
+         "known-bad idiom), ValueError otherwise; the replay loop and the collation iterate self.entries in order; the tag grammar "
+         "is checked on the regex AST and against the module documentation; creation / growth / single-bit write / overwrite shapes "
+         "of the two arms; strict options raise ValueError and are tested before the shot is merged into the accumulator "
+         "(check-before-update on the CFG); wrappers forward both flags and flatten in order.",
+    note="Not decided: equality with a replay oracle for every stream (needs execution). re._parser is used to parse the regex "
+         "literal (parsing, not matching).",
+    technique="static analysis: CFG guard dominance, check-before-update reachability, regex AST, idiom tables",
+    design="DESIGN.md section 5, C19")
+
 NOT_APPLICABLE_REASON: dict[str, str] = {}
 
 
